@@ -243,6 +243,33 @@ def a_typestate(led, rid, ctx):
                           "trail" % (rt[2] if rt else "?"))
 
 
+def a17(led, rid, ctx):
+    """the API hands the caller's assumptions to the engine as they are: nothing is selected, dropped
+    or reordered on the way"""
+    from ..flow import show
+    lib = ctx.lib
+    SEL = ("filter", "filter_map", "skip", "take", "retain", "dedup", "truncate", "skip_while", "take_while",
+           "step_by", "sort", "sort_by_key", "sort_unstable", "rev", "pop", "remove", "swap_remove", "drain")
+    n = 0
+    for f in lib.fns.values():
+        if not (f.self_adt or "").endswith("api::solver::Solver") or "/tests" in f.file:
+            continue
+        R = None
+        for c in f.calls_named("solve_under_assumptions"):
+            R = R or resolver(f)
+            n += 1
+            e = R.operand(c.args[1]) if len(c.args) > 1 else None
+            sel = [x.a.name for x in e.walk() if x.k == "call" and x.a.name in SEL] if e is not None else ["?"]
+            root = peel(e, calls=None) if e is not None else None
+            direct = root is not None and root.k in ("arg",) or (root is not None and root.k == "proj" and peel(root.a, calls=None).k == "arg")
+            led.check(not sel and direct, rid, "%s:assumptions-forwarded-unchanged" % f.name, c.span,
+                      "the parameter itself is passed on",
+                      "Solver::%s passes %s to the engine instead of the caller's assumption list: an assumption "
+                      "that is dropped on the way is silently not enforced (a solution violating it is returned, "
+                      "or a core misses it)" % (f.name, show(e)[:100] if e is not None else "?"))
+    led.floor(rid, "API calls of solve_under_assumptions", n, 1)
+
+
 def run(ctx, led):
     run_rule(led, "A1", "the core guard implements Drop and restores the root state on every path", a1, ctx)
     run_rule(led, "A2", "the core guard is constructed only by its constructor, only from "
@@ -269,3 +296,4 @@ def run(ctx, led):
     from . import minimiser
     run_rule(led, "A15", "semantic minimiser: every folding step maps the values a record stands for to exactly those satisfying the folded predicate (decided on all records of a 5-value window)", minimiser.steps_exact, ctx)
     run_rule(led, "A16", "semantic minimiser: the emitted predicates describe the record exactly relative to the root domain; holes leave the bounds before redundant holes are dropped", minimiser.emission_exact, ctx)
+    run_rule(led, "A17", "the API forwards the caller's assumptions unchanged", a17, ctx)
